@@ -22,7 +22,9 @@ RULE = ('inputs: same domain as C09 (exhaustive single-byte substitutions and lo
         'line events executed inside pamqp <= 400 + 40*len(input); (2) size of the '
         'returned frame (container elements + string/byte lengths) <= 64 + 2*len(input); '
         '(3) alloc component: tracemalloc peak during decode <= 16 MiB + 512*len(input); '
-        '(4) backstop: RLIMIT_AS 2 GiB, MemoryError is a violation. Raising any exception '
+        '(4) backstops: RLIMIT_AS 2 GiB, MemoryError is a violation; a worker that spends more '
+        'than 90 s of CPU time on one in-flight case is stopped and that case reported '
+        '(work inside C calls, e.g. a regex, executes no pamqp lines). Raising any exception '
         'within budget is fine here. Non-trivial = the decoder entered a container loop or '
         'the flag-word loop (field_table / field_array / _get_flags / BasicProperties '
         'unmarshal seen by the tracer); for bulk sweeps: input passes the frame-level '
@@ -43,6 +45,7 @@ LEVEL_NOTE = ('Trusted: the line-event counter (sys.settrace), the fault model, 
 
 LOOPS = {'field_table', 'field_array', '_get_flags'}
 WORKER_DEATH_IS_VIOLATION = True
+CPU_SECONDS_PER_CASE = 90      # inputs are <= 128 KiB and decode in milliseconds
 _LIMITED = [False]
 
 
@@ -186,6 +189,13 @@ COMPONENTS = [
     Component('deep-random', check, strategy=D.deep_random_cases,
               budget={'quick': 4800, 'thorough': 96000},
               describe='random chains of explicit depth 1..64 with 1-2 faults'),
+    Component('dictionary', check, cases=D.dictionary_cases,
+              distinct_by_construction=True,
+              describe='well-formed frames built around every identifier-like literal '
+                       'harvested from the tree under test (auto-dictionary)'),
+    Component('wellformed', check, strategy=D.wellformed_cases,
+              budget={'quick': 4800, 'thorough': 160000},
+              describe='well-formed wire frames without any fault'),
     Component('hostile-keys', check, cases=D.hostile_key_cases,
               distinct_by_construction=True, exhaustive=True,
               describe='templating-hostile table keys x every way a value can fail x '
